@@ -2,6 +2,14 @@
 
 CLAIMS = [
     {
+        "property_id": "C14",
+        "level": "model_checking",
+        "technique": "TLA+ model of index building (IndexBuild.tla: workers x documents x tie sets) checked with TLC; recorded session histories with visible tie sets validated by TLC against Trace_IndexBuild.tla",
+        "text": "IndexBuild.tla shows at design level that the winner among equally scored documents is a function of the data iff one indexing worker is used (TLC: holds for 1 worker over every tie set, counterexample for 3). The implementation is bound by trace validation: a history of sessions (repeated in-memory builds, first on-disk build, reopen, rebuild after a hash change, reopen) x ~1500 phrases is recorded with the lookup hook exposing scores, and TLC accepts it iff every phrase is answered by the same document in every session.",
+        "design_ref": "DESIGN.md section 5/C14",
+        "note": "tantivy's thread interleaving cannot be controlled from outside, so the implementation side is statistical over repeated builds (the pinned tree failed within two builds); scores are assumed segment-independent (tantivy computes BM25 from searcher-wide statistics).",
+    },
+    {
         "property_id": "C15",
         "level": "model_checking",
         "technique": "TLA+ spec of the recovery protocol (Store.tla) model-checked with TLC; every TLC-generated fault/start/kill schedule replayed on real directories with crash hooks; recorded store-step traces validated against the spec",
